@@ -31,7 +31,10 @@ RULE = (
     "expec, norm, trace, partial trace (all keep subsets), partial transpose, .H, permute_arrays, constructor "
     "layouts, named generators, sub-MPOs on site subsets, compress(form) bond arithmetic. Non-trivial: L >= 2 "
     "and some bond > 1. oracle stream: every method of tensor_network_1d_compress x sweep direction x "
-    "{MPS, MPO.MPS lazy, MPO.MPO lazy, sub-MPO on a site subset, sum of two MPS} x {no truncation, truncation}."
+    "{MPS, MPO.MPS lazy, MPO.MPO lazy, sub-MPO on a site subset, sum of two MPS} x {no truncation, truncation}; "
+    "every method x all six boolean options (normalize, sweep_reverse, canonize, permute_arrays, equalize_norms, inplace; "
+    "quick: the 4 normalize x sweep_reverse settings x 2 complementary settings of the rest, thorough: all 64) with the "
+    "promise of each option checked; MatrixProductState.compress_site against the sequential SVD optimum."
 )
 
 HEADER = tm.HEADER + "From QV Require Import C09.Model.\n"
@@ -1283,11 +1286,12 @@ def compression_stream(ctx):
     kinds = ["mps", "mps_sum", "mpo_mps", "mpo_mpo", "sub_mpo"]
     combos = [(m, rev, k) for m in methods for rev in (False, True) for k in kinds]
     if ctx.quick:
-        # every method x direction, two kinds each (rotating) ; all kinds for the direct method
+        # every method x direction on a rotating input kind ; all kinds for the direct method
         sel = []
         for mi, m in enumerate(methods):
             for ri, rev in enumerate((False, True)):
-                ks = kinds if m == "direct" else [kinds[(mi + ri) % len(kinds)], kinds[(mi + ri + 2) % len(kinds)]]
+                # (options_stream crosses every method with MPS and lazy MPO.MPS inputs as well)
+                ks = kinds if m == "direct" else [kinds[(2 * mi + ri) % len(kinds)]]
                 sel += [(m, rev, k) for k in ks]
         combos = sel
     for m, rev, kind in combos:
@@ -1421,6 +1425,196 @@ def compression_stream(ctx):
             continue
         if max(q.bond_sizes()) > 5 or not close(np.asarray(q.to_dense()).reshape(-1), ref, 1e-8):
             ctx.violation("compress:periodic", f"periodic MPS.compress(form={form}, max_bond >= bond, cutoff=0) changed the state or exceeded the cap", desc)
+
+
+def iso_defect_scaled(tn, c):
+    """as iso_defect, but every tensor may carry a positive scalar (equalize_norms spreads one)"""
+    L = tn.L
+    worst = 0.0
+    for i in range(L):
+        t = tn[tn.site_tag(i)]
+        if i < c:
+            rb = tn.bond(i, i + 1)
+            M = np.asarray(t.to_dense([ix for ix in t.inds if ix != rb], [rb]))
+            G = M.conj().T @ M
+        elif i > c:
+            lb = tn.bond(i - 1, i)
+            M = np.asarray(t.to_dense([lb], [ix for ix in t.inds if ix != lb]))
+            G = M @ M.conj().T
+        else:
+            continue
+        sc = float(np.trace(G).real) / len(G)
+        if not sc > 0:
+            return float("inf")
+        worst = max(worst, float(np.abs(G / sc - np.eye(len(G))).max()))
+    return worst
+
+
+def options_stream(ctx):
+    """every method x ALL its boolean options (normalize, sweep_reverse, canonize, permute_arrays,
+    equalize_norms, inplace): the promise of each option is checked on every call"""
+    import warnings
+
+    from quimb.tensor.tn1d.compress import _TN1D_COMPRESS_METHODS, tensor_network_1d_compress
+
+    rng = ctx.rng
+    nrng = np.random.default_rng(ctx.seed + 947)
+    flags = ("normalize", "sweep_reverse", "canonize", "permute_arrays", "equalize_norms", "inplace")
+    for mi, m in enumerate(_TN1D_COMPRESS_METHODS):
+        params = inspect.signature(_TN1D_COMPRESS_METHODS[m]).parameters
+        if ctx.quick:
+            combos = []
+            for a, b in itertools.product([False, True], repeat=2):
+                rest = [rng.random() < 0.5 for _ in range(4)]
+                combos.append((a, b, *rest))
+                combos.append((a, b, *[not r for r in rest]))
+        else:
+            combos = list(itertools.product([False, True], repeat=6))
+        for ci, combo in enumerate(combos):
+            opts = dict(zip(flags, combo))
+            if opts["equalize_norms"] and not ctx.quick and rng.random() < 0.3:
+                opts["equalize_norms"] = 1.0
+            L = rng.choice([4, 5])
+            cplx = rng.random() < 0.4
+            kind = ["mps", "mpo_mps"][(mi + ci) % 2]
+            psi = rand_float_mps(nrng, L, 3, [2] * L, cplx) * rng.choice([0.3, 1.7, 5.0])
+            if kind == "mps":
+                tn0, need = psi, 3
+            else:
+                tn0, need = psi.gate_with_op_lazy(rand_float_mpo(nrng, L, 2, [2] * L, cplx)), 6
+            order = outs_of(tn0)
+            ref = np.asarray(tm.np_dense(tm.qtn_tensors(tn0), order)).reshape(-1)
+            nref = float(np.linalg.norm(ref))
+            before = describe(tn0)
+            trunc = rng.random() < 0.35
+            D = rng.choice([1, 2]) if trunc else need + rng.choice([0, 2])
+            seed_kw = {"seed": rng.randrange(10 ** 6)} if "seed" in params or m.startswith("fit") else {}
+            desc = {"op": "tensor_network_1d_compress:options", "method": m, "input": kind, "L": L, "complex": cplx,
+                    "max_bond": D, "cutoff": 0.0, "truncating": trunc, **opts, **seed_kw}
+            ctx.count(("options", m, combo, kind), True)
+            ctx.bump("compress_options:" + m)
+            for f in flags:
+                if opts[f]:
+                    ctx.bump("compress_option_true:" + f)
+
+            def call(tn, **over):
+                with warnings.catch_warnings():
+                    warnings.simplefilter("ignore")
+                    return tensor_network_1d_compress(tn, max_bond=D, cutoff=0.0, method=m, **{**opts, **over}, **seed_kw)
+
+            t_in = tn0.copy()
+            try:
+                out = call(t_in)
+            except Exception as e:
+                ctx.violation(f"compress_options:{m}:raised", f"{m} with {opts} raised {type(e).__name__}: {str(e)[:150]}", desc)
+                continue
+            try:
+                got = np.asarray(tm.np_dense(tm.qtn_tensors(out), order, float(out.exponent))).reshape(-1)
+                bonds = [int(b) for b in out.bond_sizes()]
+            except Exception as e:
+                ctx.violation(f"compress_options:{m}:structure", f"result is not a chain over the input's labels: {type(e).__name__} {e}", desc)
+                continue
+            desc["result_bonds"] = bonds
+            gn = float(np.linalg.norm(got))
+            desc["result_norm"] = gn
+            desc["input_norm"] = nref
+            tol = 1e-6 if any(m.startswith(x) for x in ITERATIVE) else 1e-8
+            # inplace: identity of the returned object / input untouched
+            if opts["inplace"] and out is not t_in:
+                ctx.violation("compress_options:inplace:identity", f"{m}(inplace=True) returns a new object", desc)
+            if not opts["inplace"] and (out is t_in or describe(t_in) != before):
+                ctx.violation("compress_options:inplace:mutates_input", f"{m}(inplace=False) modified its input", desc)
+            if max(bonds) > D:
+                ctx.violation(f"compress_options:{m}:bond_cap", f"{m} with {opts}: bonds {bonds} exceed max_bond={D}", desc)
+            # normalize
+            if opts["normalize"]:
+                if not abs(gn - 1.0) <= tol:
+                    ctx.violation("compress_options:normalize:norm",
+                                  f"{m}(normalize=True, sweep_reverse={opts['sweep_reverse']}) returns a state of norm {gn:.6f}, not 1", desc)
+                if not trunc and not np.linalg.norm(got - ref / nref) <= tol:
+                    ctx.violation("compress_options:normalize:value",
+                                  f"{m}(normalize=True) without truncation is not the normalised input (error {np.linalg.norm(got - ref / nref):.2e})", desc)
+            elif not trunc:
+                if not np.linalg.norm(got - ref) <= tol * nref:
+                    ctx.violation(f"compress_options:{m}:exact",
+                                  f"{m} with {opts} does not reproduce its input (rel. error {np.linalg.norm(got - ref) / nref:.2e})", desc)
+            if trunc and opts["normalize"]:
+                # proportional to the un-normalised compression with the same options
+                try:
+                    ref_out = call(tn0.copy(), normalize=False, inplace=False)
+                    r2 = np.asarray(tm.np_dense(tm.qtn_tensors(ref_out), order, float(ref_out.exponent))).reshape(-1)
+                    n2 = float(np.linalg.norm(r2))
+                    if n2 > 0 and not np.linalg.norm(got - r2 / n2) <= 10 * tol:
+                        ctx.violation("compress_options:normalize:proportional",
+                                      f"{m}(normalize=True) is not the normalised (normalize=False) compression "
+                                      f"(difference {np.linalg.norm(got - r2 / n2):.2e})", desc)
+                except Exception as e:
+                    ctx.violation(f"compress_options:{m}:raised", f"{m} reference call raised {type(e).__name__}: {str(e)[:120]}", desc)
+            # canonical form where the sweep direction says (up to a scalar per tensor when norms are equalised)
+            c = (L - 1) if opts["sweep_reverse"] else 0
+            dfc = iso_defect_scaled(out, c) if opts["equalize_norms"] else iso_defect(out, c)
+            desc["isometry_defect"] = dfc
+            if dfc > 1e-8:
+                ctx.violation("compress_options:canonical_form",
+                              f"{m} with {opts} is not {'left' if opts['sweep_reverse'] else 'right'} canonical (defect {dfc:.2e})", desc)
+            # permute_arrays: (left, right, physical) axis order
+            if opts["permute_arrays"]:
+                for i in range(L):
+                    t = out[out.site_tag(i)]
+                    want = [x for x in ((out.bond(i - 1, i) if i > 0 else None), (out.bond(i, i + 1) if i < L - 1 else None)) if x]
+                    want.append(out.site_ind(i))
+                    if list(t.inds) != want:
+                        ctx.violation("compress_options:permute_arrays", f"{m}(permute_arrays=True): site {i} has axes {t.inds}", desc)
+                        break
+
+
+def compress_site_stream(ctx):
+    """MatrixProductState.compress_site(i, max_bond=k, cutoff=0): the two bonds next to the centre are truncated
+    one after the other, each optimally (the error is the sequential optimum), the caps hold, the centre is i"""
+    rng = ctx.rng
+    nrng = np.random.default_rng(ctx.seed + 953)
+    for it in range(ctx.n(24, 240)):
+        L = rng.choice([2, 3, 4, 5, 6])
+        chi = rng.choice([2, 3, 4, 6])
+        cplx = rng.random() < 0.4
+        pd = rng.choice([2, 2, 3]) if L <= 4 else 2
+        psi = rand_float_mps(nrng, L, chi, [pd] * L, cplx)
+        i = rng.randrange(L)
+        k = rng.choice([1, 2, 3])
+        v = np.asarray(psi.to_dense()).reshape(-1)
+        desc = {"op": "compress_site", "L": L, "bond": chi, "phys": pd, "complex": cplx, "site": i, "max_bond": k, "psi": describe(psi)}
+        ctx.count(("compress_site", it), True)
+        ctx.bump("compress_site")
+        # reference: truncate cut (i-1|i) of psi, then cut (i|i+1) of the result, each by SVD
+        cur = v.copy()
+        e2 = 0.0
+        for cut in ([i] if i > 0 else []) + ([i + 1] if i < L - 1 else []):
+            M = cur.reshape(pd ** cut, -1)
+            U, s, Vh = np.linalg.svd(M, full_matrices=False)
+            e2 += float(np.sum(s[k:] ** 2))
+            cur = ((U[:, :k] * s[:k]) @ Vh[:k]).reshape(-1)
+        try:
+            q = psi.copy()
+            q.compress_site(i, max_bond=k, cutoff=0.0)
+            got = np.asarray(q.to_dense()).reshape(-1)
+        except Exception as e:
+            ctx.violation("compress_site:raised", f"compress_site({i}, max_bond={k}) raised {type(e).__name__}: {str(e)[:120]}", desc)
+            continue
+        err = float(np.linalg.norm(got - v))
+        want = math.sqrt(e2)
+        nv = float(np.linalg.norm(v))
+        desc["error"], desc["sequential_optimum"] = err, want
+        bs = q.bond_sizes()
+        near = [bs[j] for j in (i - 1, i) if 0 <= j < L - 1]
+        if any(b > k for b in near):
+            ctx.violation("compress_site:bond_cap", f"bonds next to site {i} are {near} > {k}", desc)
+        if abs(err - want) > 1e-8 * nv:
+            ctx.violation("compress_site:error", f"compress_site({i}, max_bond={k}): error {err:.4e}, sequential optimum {want:.4e}", desc)
+        elif not close(got, cur, 1e-8):
+            ctx.violation("compress_site:value", "compress_site result differs from the sequentially truncated state", desc)
+        d = iso_defect(q, i)
+        if d > 1e-8:
+            ctx.violation("compress_site:canonical_form", f"state is not canonical around site {i} afterwards (defect {d:.2e})", desc)
 
 
 def dense_roundtrip_stream(ctx):
@@ -1609,6 +1803,8 @@ def run(ctx):
     ctx.check_props(["Base/Sums.vo", "Base/TN.vo", "Base/TNExec.vo", "C09/Model.vo", "C09/Proofs.vo", "C09/Cap.vo", "C09/Trunc.vo", "C09/Props.v"])
     timed(ctx, exact_stage)
     timed(ctx, compression_stream)
+    timed(ctx, options_stream)
+    timed(ctx, compress_site_stream)
     timed(ctx, dense_roundtrip_stream)
     timed(ctx, float_ops_stream)
 
